@@ -222,6 +222,14 @@ def dsge_histories(h: Harness, rng):
             for c in cs:
                 h.holds("DynamicSGE.crossover", "gene-not-from-parents-at-locus", ["prop_dsge_locus", s1, s2, linear.dsge_sx(c.dna, b)],
                         "dSGE child (parents that had been mapped) has a gene list that is neither parent's list for that key", [s1, s2, step])
+                # every locus of a child has a gene list of its own: one list object under two symbols would receive the genes of both
+                # as soon as the child is mapped (on-demand extension writes into it)
+                lists = list(c.dna.values())
+                if len({id(v) for v in lists}) < len(lists):
+                    shared = [str(gram.ty_sx(gram.ty_of_py(k, b))) for k, v in c.dna.items() if sum(1 for w in lists if w is v) > 1]
+                    h.fail("DynamicSGE.crossover", "gene-not-from-parents-at-locus",
+                           f"dSGE child holds ONE gene list object under several symbols ({shared[:4]}): genes drawn for one of them appear at the loci of the others",
+                           [s1, s2, step])
                 if safe(lambda: rep.genotype_to_phenotype(c))[0] != "ok":
                     continue
                 cur = c
